@@ -593,12 +593,16 @@ func pbGetQueryDeserialize(in *pbx.GetQuery) *MsgGetQuery {
 	if desc := in.GetDesc(); desc != nil {
 		msg.Desc = &MsgGetOpts{
 			IfModifiedSince: int64ToTime(desc.GetIfModifiedSince()),
+			User:            desc.GetUser(),
+			Topic:           desc.GetTopic(),
 			Limit:           int(desc.GetLimit()),
 		}
 	}
 	if sub := in.GetSub(); sub != nil {
 		msg.Sub = &MsgGetOpts{
 			IfModifiedSince: int64ToTime(sub.GetIfModifiedSince()),
+			User:            sub.GetUser(),
+			Topic:           sub.GetTopic(),
 			Limit:           int(sub.GetLimit()),
 		}
 	}
@@ -1140,6 +1144,7 @@ func pbServerCredsSerialize(in []*MsgCredServer) []*pbx.ServerCred {
 		out[i] = &pbx.ServerCred{
 			Method: cr.Method,
 			Value:  cr.Value,
+			Done:   cr.Done,
 		}
 	}
 
